@@ -125,7 +125,7 @@ func validateContextURIPosition(contextURIPositions []string, docMap map[string]
 	for position, uri := range contextURIPositions {
 		docURI, ok := docContexts[position].(string)
 		if !ok {
-			return fmt.Errorf("unsupported URI type %s", reflect.TypeOf(docContexts[position]).String())
+			return fmt.Errorf("unsupported URI type %T", docContexts[position])
 		}
 
 		if !strings.EqualFold(docURI, uri) {
